@@ -17,8 +17,7 @@
   * the copy-on-write tries (`AccountTrieDB`, `CandidateTrieDB`) are association lists; the order in
     which a Go map / a trie enumerates its entries is not modelled — `ranking_perm_invariant`
     (LemoProofs/C10.lean) proves that the result of `ranking` does not depend on it;
-  * an account is (address, candidate flag, votes): `Flag.none` = empty candidate profile,
-    `Flag.yes` = profile[isCandidate]="true", `Flag.no` = "false".
+  * an account is (address, candidate flag, votes); the flag has four values, see `Flag`.
 -/
 import LemoModel.GoSem
 namespace LemoModel.Ranking
@@ -85,8 +84,18 @@ def fullSort : List Cand → List Cand
 def putCand (l : List Cand) (c : Cand) : List Cand :=
   c :: l.filter (fun e => e.addr != c.addr)
 
+/-- the candidate flag of an account, as far as the four predicates of the store can tell values apart:
+    `none`  = empty candidate profile;
+    `yes`   = profile[isCandidate] = "true";
+    `no`    = profile[isCandidate] = "false";
+    `other` = a non-empty profile whose isCandidate entry is any other string (buildProfile keeps a
+              user-supplied value on first registration, e.g. "yes") or is missing.
+    The predicates: cblock.go collectUnregisters `== "false"` (`Flag.no`); chain_database.go start-up
+    `== "true"` (`Flag.yes`); filterCandidates / blockCommit "profile non-empty" (`≠ Flag.none`);
+    the property's "registered candidate" is `Flag.yes`.  (A fifth predicate, ChainDatabase.isCandidate
+    with strconv.ParseBool and a panic, sits behind AfterScan, which has no caller in /repo.) -/
 inductive Flag where
-  | none | yes | no
+  | none | yes | no | other
   deriving DecidableEq, Repr, Inhabited
 
 structure Acct where
